@@ -16,7 +16,7 @@ RULE = ("states = (literal content, position, quote style) programs compiled by 
         "evaluations on the literal's neighbour inputs (equal, one char / one unit / other type with equal text); "
         "oracle = reference interpreter on the verbatim literal value, exact value+type for returned groups")  # fmt: skip
 
-POSITIONS = ["group", "right", "left", "tuple", "nested", "salt", "ne", "group2"]
+POSITIONS = ["group", "right", "left", "tuple", "nested", "salt", "ne", "group2", "tuple1", "tuple1eq", "tuple1nested"]
 
 
 def programs_for(v):
@@ -32,6 +32,11 @@ def programs_for(v):
     yield "tuple", ("prog", "e", None, ("u",), ("if", ("cmp", ("id", "f"), "in", ("tup", (L, ("lit", "zz")))), T, F)), [{"u": 1, "f": x} for x in nb]
     yield "nested", ("prog", "e", None, ("u",), ("if", ("cmp", ("id", "f"), "in", ("tup", (("tup", (("lit", "q"), L)), ("lit", "zz")))), T, F)), \
         [{"u": 1, "f": ("q", x)} for x in nb] + [{"u": 1, "f": "q"}, {"u": 1, "f": v}]  # fmt: skip
+    # one-member tuples: (m) is a tuple, not m
+    yield "tuple1", ("prog", "e", None, ("u",), ("if", ("cmp", ("id", "f"), "in", ("tup", (L,))), T, F)), [{"u": 1, "f": x} for x in nb] + [{"u": 1, "f": (v,)}]
+    yield "tuple1eq", ("prog", "e", None, ("u",), ("if", ("cmp", ("id", "f"), "==", ("tup", (L,))), T, F)), [{"u": 1, "f": (x,)} for x in nb] + [{"u": 1, "f": v}]
+    yield "tuple1nested", ("prog", "e", None, ("u",), ("if", ("cmp", ("id", "f"), "in", ("tup", (("tup", (L,)), ("lit", "zz")))), T, F)), \
+        [{"u": 1, "f": (x,)} for x in nb] + [{"u": 1, "f": v}, {"u": 1, "f": ((v,),)}]  # fmt: skip
     if isinstance(v, str):
         yield "salt", ("prog", "e", v, ("u",), ("ret", tuple((f"g{i}", "1") for i in range(16)))), [{"u": i} for i in range(6)]
 
